@@ -27,7 +27,11 @@ def _mins(n):
                  # owner woken through the harness's ICallbackMechanism (4 of the 9 combinations)
                  'cases_callback_socketpair': 30, 'cases_callback_waitcondition': 30, 'cases_owner_callback_only': 25, 'cases_owner_callback_and_direct': 25,
                  'callback_dispatches': 2500, 'callback_untimed_waits': 2000, 'replies_via_callback': 12000, 'callbacks_requested_during_drain': 250,
-                 'callback_resignals_by_dispatcher': 100, 'msgs_sent_from_inside_callback': 1000}.items():
+                 'callback_resignals_by_dispatcher': 100, 'msgs_sent_from_inside_callback': 1000,
+                 # fault dimension: handled signals thrown at blocked threads; timed waits with a far deadline and the histories they are sensitive to
+                 'cases_with_signals_socketpair': 40, 'cases_with_signals_waitcondition': 30,
+                 'signals_delivered_to_blocked_internal_thread': 60, 'signals_delivered_to_blocked_owner_thread': 60,
+                 'long_timed_waits_ok': 800, 'timed_waits_started_with_message_already_queued': 1500, 'stale_notification_histories': 15}.items():
         m[k] = int(v * f)
     return m
 
@@ -43,7 +47,11 @@ SPEC = dict(
           "wait-condition x internal-thread style default loop / select-first loop / mixed untimed-timed-polling waits x owner woken directly or "
           "(4 of 9) through an ICallbackMechanism implemented by the harness: the owner blocks untimed on the mechanism's latched flag, calls "
           "DispatchCallbacks() and gets the replies through Thread::MessageReceivedFromInternalThread(), sometimes sending from inside the callback; "
-          "callback-only or mixed with direct GetNextReplyFromInternalThread() calls).  The checker runs in "
+          "callback-only or mixed with direct GetNextReplyFromInternalThread() calls).  In a third of the cases a signaller thread throws SIGUSR1 (no-op handler, no SA_RESTART) "
+          "a few times at the internal thread and/or the owner, preferably while the target is at its blocking point (bookkeeping from the hooked sites).  "
+          "Timed receives also come with a 3 s deadline, begun only when a reply is due, sometimes after polling the queue empty first; verdicts on them "
+          "are by return code only: B_TIMED_OUT although a reply was already queued before the call, or (wait-condition Threads, where B_TIMED_OUT is "
+          "returned only at the deadline) although the next reply's send had returned more than 1 s before the deadline.  The checker runs in "
           "the harness on the internal thread's and the owner's logs: exactly once, per-sender FIFO in both directions (the owner's stream "
           "includes the shutdown tokens), nothing received that was not sent, one token per exit.  A lost wake-up or a join that never "
           "returns is reported only by the driver's proved-deadlock detector (all threads in untimed waits, no CPU, 3 s): every wait for "
@@ -54,11 +62,14 @@ SPEC = dict(
                  'blocking and timed receives are attempted only while the Thread counts as running; a stopped socket-pair Thread has no socket to wait on (unspecified corner, polled instead)',
                  'the owner selects on GetOwnerWakeupSocket() only after its own last dequeue attempt found the reply queue empty',
                  'the harness ICallbackMechanism keeps a latched flag; the owner consumes it only directly before a full ICallbackMechanism::DispatchCallbacks()',
+                 'GetRunTime64() is one monotonic clock for all threads (the sender stamps a reply after SendMessageToOwner() returned; the stamp is compared with the deadline the receiver chose, never with when the receiver ran)',
                  'g++ 12 ASan/UBSan/TSan report what they claim to report; the deadlock detector of lib/driver.py proves hangs'],
     legs=[
         Leg('regress', 'h_thread', 'asan', opts={'mode': 'regress'}, quick=1, thorough=1, workers=1, min_cases=1),
         Leg('asan', 'h_thread', 'asan', opts={'mode': 'run'}, quick=3456, thorough=86400, workers=16),
         Leg('tsan', 'h_thread', 'tsan', opts={'mode': 'run'}, quick=2304, thorough=57600, workers=16),
     ],
-    min_stats={'asan': _mins(3456), 'tsan': _mins(2304), 'regress': {'regress_combinations': 9, 'regress_callback_request_during_drain_witnesses': 4, 'regress_callback_requests_signalled_during_drain': 4}},
+    min_stats={'asan': _mins(3456), 'tsan': _mins(2304), 'regress': {'regress_combinations': 9, 'regress_callback_request_during_drain_witnesses': 4, 'regress_callback_requests_signalled_during_drain': 4,
+                        'regress_signal_witnesses': 5, 'regress_signals_at_blocked_internal_thread': 10, 'regress_signals_at_blocked_owner_thread': 5,
+                        'regress_stale_notification_witnesses': 5, 'regress_stale_notification_histories_seen': 2, 'regress_long_timed_waits_ok': 5}},
 )
